@@ -43,7 +43,7 @@ CRATES_OF = {
     'D': ['parity_scale_codec', 'parity_scale_codec_derive'],
     'E': ['parity_scale_codec'],
     'F': ['codec_fuzzer'],
-    'G': ['parity_scale_codec'],
+    'G': ['parity_scale_codec', 'parity_scale_codec_derive'],
 }
 
 
